@@ -47,12 +47,13 @@ ERROR_KINDS = [InjectedError, InjectedOSError, InjectedValueError, InjectedFileN
 class Recorder(object):
     """Shared (never forked) history recorder + fault plan."""
 
-    def __init__(self, sim, nyield=0, fail_at=None, fail_kind="callback", error_cls=InjectedError):
+    def __init__(self, sim, nyield=0, fail_at=None, fail_kind="callback", error_cls=InjectedError, fail_after=0.0):
         self.sim = sim
         self.nyield = nyield
         self.fail_at = fail_at          # fail on the k-th started item (0-based), or None
         self.fail_kind = fail_kind
         self.error_cls = error_cls
+        self.fail_after = fail_after    # virtual seconds the failing item works before it raises
         self.nstart = 0
         self.serial = None              # list when used outside a simulation
         self.injected = None
@@ -69,6 +70,11 @@ class Recorder(object):
             self.sim.event("start", *key)
         if self.fail_at is not None and k == self.fail_at and self.injected is None:
             self.injected = key
+            if self.sim is not None and self.fail_after > 0:
+                # a slow item that fails late: peers may run out of work and exit in the meantime
+                self.sim.sleep(self.fail_after)
+                for _ in range(self.nyield):
+                    self.sim.yield_point("cb")
             if self.sim is not None:
                 self.sim.fault("injected_exception")
                 self.sim.event("inject", *key)
